@@ -505,7 +505,7 @@ func init() {
 		var out []Inst
 		ks := []int64{1, 2, 3}
 		if thorough {
-			ks = []int64{1, 2, 3, 4, 5}
+			ks = []int64{1, 2, 3, 4}
 		}
 		for _, k := range ks {
 			for cfg := int64(0); cfg < 2; cfg++ {
@@ -537,7 +537,7 @@ func init() {
 		Quick:    func(l *loaded) []Inst { return c03(false) },
 		Thorough: func(l *loaded) []Inst { return c03(true) },
 		Covers:   []string{"C03.matched", "C03.unmatched", "C03.tcp", "C03.sendfails", "C03.relay.delivered", "C03.connect.ok", "C03.connect.fails", "C03.two.end"},
-		Bounds:   "one real Send from an arbitrary state (sequence number and channel symbolic, so the 255->0 wrap is included) against an environment that K<=3 (thorough 5) times stays silent, lets a resend interval pass, offers an acknowledgement with symbolic sequence number and status, or closes the ack channel; two configurations (resend 2s/timeout 5s, 3s/7s) on the virtual clock; socket failing at the first or second transmission; TCP; handleTunnelRes offer window; requestConn outcomes; two concurrent senders against a gateway goroutine that acknowledges, loses or duplicates (context bound 2-3)",
+		Bounds:   "one real Send from an arbitrary state (sequence number and channel symbolic, so the 255->0 wrap is included) against an environment that K<=3 (thorough 4) times stays silent, lets a resend interval pass, offers an acknowledgement with symbolic sequence number and status, or closes the ack channel; two configurations (resend 2s/timeout 5s, 3s/7s) on the virtual clock; socket failing at the first or second transmission; TCP; handleTunnelRes offer window; requestConn outcomes; two concurrent senders against a gateway goroutine that acknowledges, loses or duplicates (context bound 2-3)",
 		Outside:  "3..8 concurrent senders and 600 Sends (one exchange from every counter value stands for any number of exchanges: requestTunnel keeps no other state between calls); real-time jitter: virtual time advances only when no goroutine can move",
 		Assume:   []string{"time.After/NewTicker/Stop are engine primitives on a virtual clock (timers never fire early, fire when nothing else can run)", "sync.Mutex: Unlock makes any waiter or newcomer eligible"},
 	})
